@@ -2,7 +2,7 @@
    Statements only.  Proofs: Proofs/RunnerP.v (on top of the dispatcher invariants of
    Proofs/DispatchInv.v: a node whose generator passed its last `yield this_task` is never handed
    to the runner again). *)
-From DoitV Require Import Base Dispatch Runner Parallel DispatchP DispatchInv RunnerTr RunnerP ParallelP.
+From DoitV Require Import Base Dispatch Runner Parallel DispatchP DispatchInv RunnerTr RunnerP ParallelP CompleteP.
 Open Scope N_scope.
 
 (* serial runner, every task table / selection / flags / set-iteration oracle / fuel:
@@ -42,6 +42,45 @@ Example C02_one_final_nonvacuous :
   exists pre post, fst (run_serial ex02 (fun _ _ => 0) (fun _ => 0) false false 200 [0; 1; 2; 0]) = pre ++ ESuccess 2 :: post /\
                    is_final_ev 2 (ESuccess 2) = true.
 Proof. exists [EGetStatus 2; EExecute 2; ESave 2]. eexists. split; [vm_compute; reflexivity|reflexivity]. Qed.
+
+(* ... and AT LEAST ONE when the run was not cut short (serial runner): if the exit code is 0 -- or, under
+   --continue, 0, 1 or 2, i.e. anything but a cycle diagnostic (3), an interrupt (4) or the model's out-of-fuel
+   (99) -- every selected task has a final report in the trace; with the theorem above: exactly one.
+   (Proofs/CompleteP.v: run_tasks ends normally only when the dispatcher is exhausted; then nothing is ready,
+   waiting or current, and by the wait-graph invariant of Proofs/HoldP.v every unfinished node sits in one of
+   those; every name of the selection has a node once tasks_to_run is used up; a final status always comes with
+   its report.)  The same holds for every task the run created a node for -- every dependency it looked at
+   [CompleteP.serial_complete].  That a run does end (fuel bound) is not part of this statement. *)
+Theorem C02_exit_0_every_selected_task_reported_serial :
+  forall tasks wake_rank calc_rank continue_ always fuel selection,
+    snd (run_serial tasks wake_rank calc_rank continue_ always fuel selection) = 0 ->
+    forall x, In x selection ->
+      finished_in (fst (run_serial tasks wake_rank calc_rank continue_ always fuel selection)) x.
+Proof. exact run_serial_complete_success. Qed.
+Print Assumptions C02_exit_0_every_selected_task_reported_serial.
+
+Theorem C02_continue_every_selected_task_reported_serial :
+  forall tasks wake_rank calc_rank always fuel selection,
+    snd (run_serial tasks wake_rank calc_rank true always fuel selection) <= 2 ->
+    forall x, In x selection ->
+      finished_in (fst (run_serial tasks wake_rank calc_rank true always fuel selection)) x.
+Proof.
+  intros tasks wake_rank calc_rank always fuel selection.
+  exact (run_serial_complete_continue tasks wake_rank calc_rank true always fuel selection eq_refl).
+Qed.
+Print Assumptions C02_continue_every_selected_task_reported_serial.
+
+(* non-vacuity: a run with a failing task under --continue ends with exit code 1 and reports every selected task *)
+Definition ex02f (n : name) : option task :=
+  match n with
+  | 0 => Some (Build_task [1] [] [] false false CkRun false OOk [] [] [])
+  | 1 => Some (Build_task [] [] [] false false CkRun false OFail [] [] [])
+  | 2 => Some (Build_task [] [] [] false false CkRun false OOk [] [] [])
+  | _ => None end.
+Example C02_complete_nonvacuous :
+  snd (run_serial ex02f (fun _ _ => 0) (fun _ => 0) true false 200 [1; 2]) = 1 /\
+  snd (run_serial ex02 (fun _ _ => 0) (fun _ => 0) false false 200 [0; 1; 2; 0]) = 0.
+Proof. split; vm_compute; reflexivity. Qed.
 
 (* the parallel runners (MRunner with processes: proc = true; MThreadRunner: proc = false), every number of
    workers, EVERY schedule (oracle [sched] resolves each choice between "main dequeues a result" and
